@@ -6,6 +6,7 @@ import (
 	"context"
 	"errors"
 	"fmt"
+	"os"
 	"runtime"
 	"sort"
 	"strconv"
@@ -130,6 +131,7 @@ type c27State struct {
 	results     map[string]c27Res // per token
 	nextBatch   int
 	gateReached bool
+	seenCo      map[*coalescer]bool
 
 	gateCh chan struct{}
 	endCh  chan struct{}
@@ -335,6 +337,7 @@ func c27Exec(x *vfkit.X, c c27Case) {
 		c:         c,
 		failedNow: map[string]bool{},
 		results:   map[string]c27Res{},
+		seenCo:    map[*coalescer]bool{},
 		gateCh:    make(chan struct{}),
 		endCh:     make(chan struct{}),
 	}
@@ -378,6 +381,14 @@ func c27Exec(x *vfkit.X, c c27Case) {
 	} else {
 		cl = NewClient(WithSendCoalescing(c.MaxBatch), WithCoalescingErrorHandler(st.errHandler), WithClientMaxIdleConns(2)).(*client)
 		submit = func(ctx context.Context, tok string) error {
+			// remember every coalescer this client ever creates: Close() racing with the
+			// creation of a coalescer forgets it (map reset) while its writer keeps running,
+			// and the harness has to stop that writer before it can judge
+			if cur := cl.getCoalescer(to.Host(), to.Port()); cur != nil {
+				st.mu.Lock()
+				st.seenCo[cur] = true
+				st.mu.Unlock()
+			}
 			return cl.RemoteTell(ctx, from, to, &testpb.Reply{Content: tok})
 		}
 		doClose = func() { cl.Close() }
@@ -527,18 +538,37 @@ func c27Exec(x *vfkit.X, c c27Case) {
 		return
 	}
 	end()
-	// callers racing Close may have created a fresh coalescer after the reset: stop it as well
-	var co2 *coalescer
+	// callers racing Close may have created further coalescers (after the map reset, or
+	// between Close's Range and its Reset, which leaves a running writer nobody owns): stop them all
+	leftover := c27Drain(co)
 	if cl != nil {
-		if cur, ok := cl.coalescers.Get(dest); ok && cur != co {
-			co2 = cur
+		if cur, ok := cl.coalescers.Get(dest); ok {
+			st.mu.Lock()
+			st.seenCo[cur] = true
+			st.mu.Unlock()
+		}
+		st.mu.Lock()
+		var others []*coalescer
+		for o := range st.seenCo {
+			if o != co {
+				others = append(others, o)
+			}
+		}
+		st.mu.Unlock()
+		for _, o := range others {
+			select {
+			case <-o.done:
+			default:
+				x.Class("coalescer_created_during_close")
+			}
+			o.close()
+			leftover = append(leftover, c27Drain(o)...)
 		}
 		cl.Close()
 	}
 	if nc != nil {
 		_ = nc.Close()
 	}
-	leftover := append(c27Drain(co), c27Drain(co2)...)
 
 	// ---- judge ------------------------------------------------------------------
 	st.mu.Lock()
@@ -641,7 +671,8 @@ func c27Exec(x *vfkit.X, c c27Case) {
 		if lostAfterClose > 0 {
 			fp = fpC27CloseRace
 		}
-		if x.Known(fp) {
+		// VF_C27_STRICT=1 (used to validate fix diffs): report even while listed as known
+		if x.Known(fp) && os.Getenv("VF_C27_STRICT") == "" {
 			x.Class("known_" + fp + "_tolerated")
 		} else if fp == fpC27CloseDrop {
 			x.Failf(fp, "close() returned with %d accepted message(s) still sitting in the coalescer queue: not sent, not passed to the error handler (all of them were accepted before close() was called; %d were pending at that moment, maxBatch=%d, queue capacity %d, via=%s, batches seen by the server %v): %v",
